@@ -3,6 +3,7 @@
 //! Usage: vcore <Cxx> [--tier quick|thorough] [--replay <file>]
 
 mod c01;
+mod c02;
 mod c03;
 mod c04;
 mod c06;
@@ -13,6 +14,7 @@ mod c11;
 mod c12;
 mod c13;
 mod c14;
+mod c19;
 mod drive;
 mod mc;
 mod pkt;
@@ -41,6 +43,7 @@ fn main() {
     let args = report::parse_args(&argv[2..]);
     let code = match argv[1].as_str() {
         "C01" => c01::run(&args),
+        "C02" => c02::run(&args),
         "C03" => c03::run(&args),
         "C04" => c04::run(&args),
         "C06" => c06::run(&args),
@@ -51,6 +54,7 @@ fn main() {
         "C12" => c12::run(&args),
         "C13" => c13::run(&args),
         "C14" => c14::run(&args),
+        "C19" => c19::run(&args),
         other => {
             eprintln!("MACHINERY: unknown property {other}");
             2
